@@ -100,3 +100,58 @@ Proof.
   - (* DisableTimeBasedSupplyLimit *)
     repeat (eapply osafe_bind; [apply ok_if_safe|]; intros _ _). cbn. auto.
 Qed.
+
+(** * The state invariant: established by a validated genesis, kept along every history *)
+
+(** [aenv_after e e' ws]: the token pairs readable in [e'] are those readable in [e] or written ([ws]) by the
+    step in between - the only thing assumed about how the module state evolves (every other oracle of [e']
+    is arbitrary: bank, EVM, parameters may change in any way between two proposals). *)
+Definition aenv_after (e e' : aenv) (ws : list pair) : Prop :=
+  forall id p, e_pair e' id = Some p -> (exists id0, e_pair e id0 = Some p) \/ In p ws.
+
+Lemma aenv_wf_after e e' ws : aenv_wf e -> Forall pair_wf ws -> aenv_after e e' ws -> aenv_wf e'.
+Proof.
+  intros Hwf Hws Ha id p Hp. destruct (Ha id p Hp) as [(id0 & H0)|Hin].
+  - exact (Hwf _ _ H0).
+  - rewrite Forall_forall in Hws. exact (Hws p Hin).
+Qed.
+
+(** A history: each proposal with the environment in force AFTER it was executed by gov.EndBlocker
+    (written on success, discarded on error). *)
+Fixpoint achain (e : aenv) (l : list (aprop * aenv)) : Prop :=
+  match l with
+  | [] => True
+  | (p, e') :: t =>
+      (forall ws, handle_aprop e p = Ok ws -> aenv_after e e' ws) /\
+      (handle_aprop e p = Err -> aenv_after e e' []) /\ achain e' t
+  end.
+
+Fixpoint arun_no_panic (e : aenv) (l : list (aprop * aenv)) : Prop :=
+  match l with
+  | [] => True
+  | (p, e') :: t => handle_aprop e p <> Panic /\ arun_no_panic e' t
+  end.
+
+Theorem aggregate_history_safe l : forall e,
+  aenv_wf e -> (forall p e', In (p, e') l -> aprop_validate p = Ok tt) -> achain e l -> arun_no_panic e l.
+Proof.
+  induction l as [|[p e'] t IH]; cbn; intros e Hwf Hv Hc; [exact I|].
+  destruct Hc as (Hok & Herr & Hc).
+  pose proof (handle_aprop_safe e p (Hv p e' (or_introl eq_refl)) Hwf) as Hs.
+  split; [eapply osafe_not_panic; exact Hs|].
+  apply IH; [| intros q e'' Hq; eapply Hv; right; exact Hq | exact Hc].
+  destruct (handle_aprop e p) as [ws| |] eqn:E; cbn in Hs.
+  - eapply aenv_wf_after; [exact Hwf | exact Hs | apply Hok; reflexivity].
+  - eapply aenv_wf_after; [exact Hwf | apply Forall_nil | apply Herr; reflexivity].
+  - contradiction.
+Qed.
+
+(** InitGenesis of a validated aggregate genesis stores exactly the listed pairs: every environment whose
+    readable pairs come from the list satisfies the invariant. *)
+Lemma ga_validate_establishes_wf l e :
+  ga_validate l = Ok tt ->
+  (forall id p, e_pair e id = Some p -> exists q, In q l /\ p_denoms p = gp_denoms q) -> aenv_wf e.
+Proof.
+  intros Hv Hfrom id p Hp. destruct (Hfrom id p Hp) as (q & Hin & Hd).
+  unfold pair_wf. rewrite Hd. exact (ga_validate_pairs_denoms _ _ _ Hv q Hin).
+Qed.
